@@ -194,6 +194,20 @@ Section GroupSort.
     NoDup (concat r) -> grouped r -> In x (concat r) -> In y (concat r) ->
     ((bucket_id r x < bucket_id r y)%Z <-> klt x y) /\ ((bucket_id r x = bucket_id r y)%Z <-> keq x y).
   Proof. intros. apply grouped_bid_from; try assumption; lia. Qed.
+
+  (** the order relation of [rank_by l] only depends on the keys (not on the listing order of l) *)
+  Theorem rank_by_order l x y :
+    NoDup l -> In x l -> In y l ->
+    ((bucket_id (rank_by l) x < bucket_id (rank_by l) y)%Z <-> klt x y) /\
+    ((bucket_id (rank_by l) x = bucket_id (rank_by l) y)%Z <-> keq x y).
+  Proof.
+    intros Nd Hx Hy. pose proof (rank_by_perm l) as P.
+    apply grouped_bucket_id.
+    - eapply Permutation_NoDup; [symmetry; exact P|exact Nd].
+    - apply rank_by_grouped.
+    - eapply Permutation_in; [symmetry; exact P|exact Hx].
+    - eapply Permutation_in; [symmetry; exact P|exact Hy].
+  Qed.
 End GroupSort.
 
 Arguments rank_by {K} leb key l.
